@@ -636,6 +636,73 @@ func c01GetMany(cs *h.Case, base []byte, pn generic.Node, n *nref, kids []*nref,
 			}
 		}
 		cs.Cover("api_GetMany")
+		// the direct bulk entry points on a REUSED slice: every slot still holds a node of an earlier query, and one
+		// more path addresses an absent element; under ClearDirtyValues nothing stale may survive
+		stale := generic.NewNodeInt32(0x5a5a5a5a)
+		pns2 := make([]generic.PathNode, len(set)+1)
+		for i, k := range set {
+			pns2[i].Path = kids[k].step
+			pns2[i].Node = stale
+		}
+		var absent generic.Path
+		haveAbsent := true
+		switch n.m.T {
+		case tref.STRUCT:
+			id := int16(32001)
+			for n.m.FieldByID(id) != nil {
+				id++
+			}
+			absent = generic.NewPathFieldId(thrift.FieldID(id))
+		case tref.LIST, tref.SET:
+			absent = generic.NewPathIndex(len(n.m.L) + 2)
+		case tref.MAP:
+			switch n.m.KT {
+			case tref.STRING:
+				absent = generic.NewPathStrKey("no-such-key-\x01")
+			case tref.I32, tref.I64:
+				absent = generic.NewPathIntKey(2147480011)
+				for _, k := range n.m.K {
+					if k.I == 2147480011 {
+						haveAbsent = false
+					}
+				}
+			default:
+				haveAbsent = false
+			}
+		}
+		if !haveAbsent {
+			pns2 = pns2[:len(set)]
+		} else {
+			pns2[len(set)].Path = absent
+			pns2[len(set)].Node = stale
+		}
+		var derr error
+		api := ""
+		switch n.m.T {
+		case tref.STRUCT:
+			api, derr = "Node.Fields", pn.Fields(pns2, opts)
+		case tref.LIST, tref.SET:
+			api, derr = "Node.Indexes", pn.Indexes(pns2, opts)
+		case tref.MAP:
+			api, derr = "Node.Gets", pn.Gets(pns2, opts)
+		}
+		if api == "" || derr != nil {
+			continue // an absent element may be reported as an error of the whole call
+		}
+		for i, k := range set {
+			if !checkNode(cs, api+":reused-slice", base, pns2[i].Node, kids[k].m) {
+				break
+			}
+		}
+		if haveAbsent && opts.ClearDirtyValues {
+			x := pns2[len(set)].Node
+			if !x.IsEmpty() && !x.IsError() {
+				cs.Viol("read:"+api+":stale-node-for-absent-element", "path", absent.String(), "node-type", int(x.Type()), "raw", hexs(x.Raw()))
+			} else {
+				cs.Cover("bulk_direct_absent_cleared")
+			}
+		}
+		cs.Cover("api_bulk_direct")
 	}
 }
 
